@@ -103,6 +103,10 @@ def main():
         if c != plan.get('k', 1) or os.path.exists(fired):
             return
         open(fired, 'w').close()
+        if plan.get('hold'):
+            # stay where we are (e.g. inside the lock) across one of the info thread's
+            # 5-second polls before dying
+            time.sleep(plan['hold'])
         if plan['kind'] == 'exit':
             os._exit(3)
         raise Injected(f"injected at {point}")
